@@ -54,6 +54,20 @@ Proof. exact split_equal_l. Qed.
 Print Assumptions C15_split_equal.
 
 (* the pinned tree (zero_fires = true) refutes it: run 0; run 1 repeats header and step-0 calls *)
+(* observer.interval is a public attribute: when the user re-tunes it between two run calls, each segment follows the interval in force
+   (the executable form the correspondence runs); left alone, that is the plain run *)
+Theorem C15_retuned_runs_compose : forall zf lg s1 s2 st,
+  runs_var zf lg st (s1 ++ s2) = let '(e1, c1) := runs_var zf lg st s1 in let '(e2, c2) := runs_var zf lg c1 s2 in (e1 ++ e2, c2).
+Proof. exact runs_var_app. Qed.
+Print Assumptions C15_retuned_runs_compose.
+Theorem C15_untouched_intervals : forall zf lg obs segments st, runs_var zf lg st (map (fun a => (obs, a)) segments) = runs zf lg obs st segments.
+Proof. exact runs_var_const. Qed.
+Print Assumptions C15_untouched_intervals.
+Example C15_retuned_example :
+  fst (runs_var false false fresh [([{| oname := 1; ointerval := 1 |}], 2); ([{| oname := 1; ointerval := 3 |}], 4)]) =
+  [Obs 1 0; Step 0; Obs 1 1; Step 1; Obs 1 2; Step 2; Obs 1 3; Step 3; Step 4; Step 5; Obs 1 6].
+Proof. reflexivity. Qed.
+
 Example C15_split_zero_refuted :
   let obs := [{| oname := 1; ointerval := 1 |}] in
   fst (runs true true obs fresh [0; 1]) = [Header; Obs 1 0; Header; Obs 1 0; Step 0; Obs 1 1]
